@@ -908,4 +908,97 @@ theorem storeObjects_prog {s0 : State} (hN : NewOK s0) {J : State → Prop} (hJ 
         rw [this]
         exact hfp
 
+
+/-! ### the loop of `_commit` over the registered objects -/
+
+theorem commitLoop_prog {s0 : State} (hN : NewOK s0)
+    (hA : ∀ k j, s0.added.get k = some j → isNewObj s0 (s0.objs j) k = true)
+    {J : State → Prop} (hJ : StepInv J) (fuel : Nat) :
+    ∀ (regs : List ObjId) (s : State), Prog s0 [] s → J s → (∀ i ∈ regs, (s0.objs i).oid ≠ none) →
+      ((commitLoop fuel s regs).2 = none →
+        Prog s0 [] (commitLoop fuel s regs).1 ∧ J (commitLoop fuel s regs).1 ∧
+        (∀ k, marked s k → marked (commitLoop fuel s regs).1 k) ∧
+        (∀ i ∈ regs, ∀ k, (s0.objs i).oid = some k →
+          (s0.added.get k = some i ∨ (s0.objs i).status = .changed) →
+          marked (commitLoop fuel s regs).1 k)) ∧
+      ((commitLoop fuel s regs).2 ≠ none → (commitLoop fuel s regs).1.d1 = false →
+        Prog s0 [] (commitLoop fuel s regs).1) := by
+  intro regs
+  induction regs with
+  | nil =>
+    intro s hP hj _
+    exact ⟨fun _ => ⟨hP, hj, fun _ h => h, by simp⟩, fun h => absurd rfl h⟩
+  | cons i rest ih =>
+    intro s hP hj hreg
+    obtain ⟨k, hk0⟩ := Option.ne_none_iff_exists'.1 (hreg i List.mem_cons_self)
+    have hk := hP.oidKeep i k hk0
+    have hrest : ∀ j ∈ rest, (s0.objs j).oid ≠ none := fun j hj => hreg j (List.mem_cons_of_mem _ hj)
+    simp only [commitLoop, hk]
+    -- the registered object, as an element of the writer's stack
+    have hst : ∀ j ∈ [i], StackOK s0 s j := by
+      intro j hj
+      simp only [List.mem_singleton] at hj
+      subst hj
+      refine ⟨k, hk, ?_, ?_, fun h => by rw [hk0] at h; cases h⟩
+      · intro ha
+        obtain ⟨j', hj'⟩ := Option.ne_none_iff_exists'.1 ha
+        have hjj : j' = j := hP.str.inj j' j k (hP.str.addedS k j' hj').1 hk
+        subst hjj
+        have h0 := hP.addedSub k j' hj'
+        have hobj := hP.addedSame k j' hj'
+        rw [isNewObj_congr k hP.tmpCr (by rw [hobj])]
+        exact hA k j' h0
+      · have := hP.str.known j k hk
+        simp only [List.not_mem_nil, or_false] at this
+        rcases this with h | h
+        · exact Or.inl h
+        · exact Or.inr (Or.inl h)
+    split
+    · -- the object is stored
+      have hso := storeObjects_prog hN hJ fuel s [i] (hP.mono (by simp)) hj (by simp) hst
+      cases hres : (storeObjects fuel s [i]).2 with
+      | none =>
+        simp only
+        obtain ⟨h1, h2, h3, h4⟩ := hso.1 hres
+        obtain ⟨ih1, ih2⟩ := ih (storeObjects fuel s [i]).1 h1 h2 hrest
+        refine ⟨fun h => ?_, ih2⟩
+        obtain ⟨g1, g2, g3, g4⟩ := ih1 h
+        refine ⟨g1, g2, fun k' hk' => g3 k' (h3 k' hk'), ?_⟩
+        intro j hjm kj hkj hch
+        rcases List.mem_cons.1 hjm with hje | hjr
+        · subst hje
+          rw [hk0] at hkj; cases hkj
+          exact g3 _ (h4 j (by simp) _ hk)
+        · exact g4 j hjr kj hkj hch
+      | some e =>
+        simp only
+        exact ⟨fun h => by simp at h, fun _ hd => hso.2 (by rw [hres]; simp) hd⟩
+    · -- nothing to do for this object
+      rename_i hcond
+      obtain ⟨ih1, ih2⟩ := ih s hP hj hrest
+      refine ⟨fun h => ?_, ih2⟩
+      obtain ⟨g1, g2, g3, g4⟩ := ih1 h
+      refine ⟨g1, g2, g3, ?_⟩
+      intro j hjm kj hkj hch
+      rcases List.mem_cons.1 hjm with hje | hjr
+      · subst hje
+        rw [hk0] at hkj; cases hkj
+        apply g3
+        simp only [Bool.or_eq_true, Bool.not_eq_true', Bool.or_eq_false_iff, not_or,
+          Bool.not_eq_true, bne_eq_false_iff_eq, not_and] at hcond
+        obtain ⟨hnadd, hcr⟩ := hcond
+        rcases hch with hch | hch
+        · rcases hP.addedTracked k j hch with h | h
+          · rw [Map.has_eq_false] at hnadd; rw [hnadd] at h; cases h
+          · exact Or.inr h.1
+        · rcases hP.statusKept j with h | ⟨k', hk', hm⟩
+          · by_cases hc : s.creating.has k = true
+            · exact Or.inr hc
+            · exfalso
+              have := hcr (by simpa using hc)
+              rw [h, hch] at this
+              simp at this
+          · rw [hk] at hk'; cases hk'; exact hm
+      · exact g4 j hjr kj hkj hch
+
 end Proofs.Conn
